@@ -132,6 +132,10 @@ func wrapExpInAddExp(exp Exp) *AddExp {
 		immExp = &numExp.ImmExp
 	} else if ie, ok := exp.(*ImmExp); ok {
 		immExp = ie
+	} else if me, ok := exp.(*MultExp); ok {
+		// 簡約された積 (ESI * (1+1) -> ESI * 2) は、そのまま AddExp の頭に置ける。ここで nil を返すと
+		// MemoryAddrExp.Eval が評価前の式に戻ってしまい、その文字列表現では括弧が落ちる ([ESI*(1+1)] -> [ESI*1+1])
+		return NewAddExp(BaseExp{}, me, nil, nil)
 	} else {
 		// MultExp のような他の型をここで直接ラップするのは簡単ではありません。
 		// このヘルパーは主に Eval からの NumberExp/ImmExp の結果用です。
@@ -506,6 +510,9 @@ func (m *MultExp) TokenLiteral() string {
 		buf.WriteString(op)
 		buf.WriteByte(' ')
 		tailStr := m.TailExps[i].TokenLiteral() // TailExps[i] で TokenLiteral() を呼び出します
+		if sum, ok := m.TailExps[i].(*AddExp); ok && len(sum.Operators) > 0 {
+			tailStr = "(" + tailStr + ")" // 括弧つきの和は括弧つきで書き戻す (さもないと a * (b + c) が a * b + c になる)
+		}
 		buf.WriteString(tailStr)
 	}
 	return buf.String()
